@@ -29,7 +29,7 @@ const modPath = "github.com/goreleaser/nfpm/v2"
 const vrtPath = modPath + "/vrt"
 
 type stats struct {
-	Reads, Writes, MapOps, MapRanges, MapRangesSkipped, Clock, Host, Mutex, Atomic, Appends, Globals, SyncPoints int
+	Reads, Writes, MapOps, MapRanges, MapRangesSkipped, Clock, Host, Mutex, Atomic, Appends, Globals, SyncPoints, FSPoints int
 	Unmodelled                                                                                          []string
 }
 
@@ -360,6 +360,43 @@ func (w *weaver) expr(e ast.Expr) ast.Expr {
 			w.st.Atomic++
 			s := w.site(x)
 			return w.call("AtomicLoadUint64", w.addrArg(x.Args[0]), s)
+		}
+		// the file system namespace as shared locations: a path is a location; creating, truncating, removing or
+		// renaming it is a write, opening it for reading, reading it or asking about it a read
+		if se, ok := x.Fun.(*ast.SelectorExpr); ok {
+			if fn, ok := w.info.Uses[se.Sel].(*types.Func); ok && fn.Pkg() != nil && fn.Pkg().Path() == "os" && fn.Type().(*types.Signature).Recv() == nil {
+				wr := map[string][]int{"Create": {0}, "Remove": {0}, "RemoveAll": {0}, "Mkdir": {0}, "MkdirAll": {0}, "WriteFile": {0}, "Truncate": {0}, "Chmod": {0}, "Chown": {0}, "Lchown": {0}, "Chtimes": {0}, "Symlink": {1}, "Link": {1}, "Rename": {0, 1}}
+				rd := map[string][]int{"Open": {0}, "ReadFile": {0}, "Stat": {0}, "Lstat": {0}, "ReadDir": {0}, "Readlink": {0}, "Link": {0}}
+				name := fn.Name()
+				if name == "OpenFile" && len(x.Args) == 3 {
+					w.st.FSPoints++
+					s := w.site(x)
+					return w.call("OpenFile", w.expr(x.Args[0]), w.expr(x.Args[1]), w.expr(x.Args[2]), s)
+				}
+				if (name == "CreateTemp" || name == "MkdirTemp") && len(x.Args) == 2 {
+					w.st.FSPoints++
+					s := w.site(x)
+					return w.call(name, w.expr(x.Args[0]), w.expr(x.Args[1]), s)
+				}
+				if idx, isW := wr[name]; isW || rd[name] != nil {
+					w.st.FSPoints++
+					s := w.site(x)
+					for i := range x.Args {
+						x.Args[i] = w.expr(x.Args[i])
+					}
+					for _, i := range idx {
+						if i < len(x.Args) {
+							x.Args[i] = w.call("FSW", x.Args[i], s)
+						}
+					}
+					for _, i := range rd[name] {
+						if i < len(x.Args) {
+							x.Args[i] = w.call("FSR", x.Args[i], s)
+						}
+					}
+					return x
+				}
+			}
 		}
 		if se, ok := x.Fun.(*ast.SelectorExpr); ok {
 			if fn, ok := w.info.Uses[se.Sel].(*types.Func); ok && fn.Pkg() != nil && fn.Pkg().Path() == "sync/atomic" {
@@ -831,6 +868,6 @@ func main() {
 	sort.Strings(st.Unmodelled)
 	rep, _ := json.MarshalIndent(st, "", " ")
 	must(os.WriteFile(filepath.Join(dst, "vrt", "weave-report.json"), rep, 0o644))
-	fmt.Printf("woven: reads=%d writes=%d mapops=%d mapranges=%d (skipped %d) clock=%d host=%d mutex=%d atomic=%d syncpoints=%d appends=%d globals=%d unmodelled=%d\n",
-		st.Reads, st.Writes, st.MapOps, st.MapRanges, st.MapRangesSkipped, st.Clock, st.Host, st.Mutex, st.Atomic, st.SyncPoints, st.Appends, st.Globals, len(st.Unmodelled))
+	fmt.Printf("woven: reads=%d writes=%d mapops=%d mapranges=%d (skipped %d) clock=%d host=%d mutex=%d atomic=%d syncpoints=%d fs=%d appends=%d globals=%d unmodelled=%d\n",
+		st.Reads, st.Writes, st.MapOps, st.MapRanges, st.MapRangesSkipped, st.Clock, st.Host, st.Mutex, st.Atomic, st.SyncPoints, st.FSPoints, st.Appends, st.Globals, len(st.Unmodelled))
 }
